@@ -65,7 +65,8 @@ func (ex *Exec) recordAlloc(n *Term, et types.Type) {
 	ex.harness.mu.Lock()
 	ex.harness.AllocChecks++
 	ex.harness.mu.Unlock()
-	ex.assertCheck(ex.runner, ex.harness, "alloc-bounded@"+fr.fn.Name(), ok)
+	prefer := tt.BAnd(tt.Ule(tt.BV(1<<18, 64), n), tt.Ule(n, tt.BV(1<<24, 64)))
+	ex.assertCheckP(ex.runner, ex.harness, "alloc-bounded@"+fr.fn.Name(), ok, prefer)
 }
 
 func isGoCarPkg(path string) bool {
